@@ -16,6 +16,15 @@
 //   optimizer object that only got the random generator (no mu, no reference point), "RESTORE <archive bytes>" is printed and
 //   the fresh object continues: G lines k..k+m (generation k again, from the restored object).  The generator and the
 //   objective function object are the same ones, so the stream of random numbers is that of an uninterrupted run.
+// Initialisation stage (case lines starting with N; the field after <refval> is the number of starting points):
+//   N <alg> <fn> <nobj> <nvar> <mu> <seed> <steps> <useRef> <refval> <npts> x(1,1) .. x(1,nvar) .. x(npts,nvar)
+//   npts > 0: the optimizer is initialised through init(function, startingPoints) with exactly these points (fewer than, as many
+//   as or more than mu; duplicates and points outside the box are the caller's choice); npts = 0: plain init(function) -- the points
+//   the objective function proposes are reconstructed (same seed, numInitPoints() calls of proposeStartingPoint) and printed, too.
+//   Additional output lines before generation 0:
+//     PTS n=<k> ; for every starting point:  x.. : f(closest feasible x) : feasible(x)      (evaluated by the harness itself)
+//     I n=<|m_parents|> ; for every parent as stored after init:  x.. : penalizedFitness : unpenalizedFitness : rank
+//   then the G lines of generation 0..steps as for O lines.
 // All doubles are printed with %.17g (exact round trip).  The Python side evaluates the spec.
 #include <shark/Algorithms/AbstractMultiObjectiveOptimizer.h>
 #include <shark/Core/utility/KeyValuePair.h>
@@ -42,6 +51,7 @@
 #include <string>
 #include <vector>
 #include <memory>
+#include <functional>
 // only the seven optimiser headers themselves are read with their protected/private members opened
 #define protected public
 #define private public
@@ -96,22 +106,46 @@ template <class F> static std::unique_ptr<Fn> mk(std::size_t nvar, std::size_t n
 	return std::unique_ptr<Fn>(f.release());
 }
 
-struct Handles { MOCMA* mocma; SteadyStateMOCMA* ss; SMSEMOA* sms; MOEAD* moead; RVEA* rvea; Handles() : mocma(0), ss(0), sms(0), moead(0), rvea(0) {} };
+struct Handles { MOCMA* mocma; SteadyStateMOCMA* ss; SMSEMOA* sms; MOEAD* moead; RVEA* rvea; std::function<void(std::ostream&)> parents;
+	Handles() : mocma(0), ss(0), sms(0), moead(0), rvea(0) {} };
+
+// the internal parent population as stored (N lines)
+template <class Pop> static void dumpParents(std::ostream& o, Pop const& p) {
+	o << "I n=" << p.size();
+	for (std::size_t i = 0; i < p.size(); ++i) {
+		o << " ; "; pv(o, p[i].searchPoint()); o << " : "; pv(o, p[i].penalizedFitness()); o << " : "; pv(o, p[i].unpenalizedFitness());
+		o << " : " << p[i].rank();
+	}
+	o << "\n";
+}
+template <class A> static void hook(Handles& h, A* a) { h.parents = [a](std::ostream& o) { dumpParents(o, a->m_parents); }; }
+
+static void dumpPoints(std::ostream& o, std::vector<RealVector> const& pts, Fn const& f) {
+	o << "PTS n=" << pts.size();
+	for (std::size_t i = 0; i < pts.size(); ++i) {
+		o << " ; "; pv(o, pts[i]); o << " : ";
+		RealVector x = pts[i];
+		bool feas = f.isFeasible(x);
+		if (!feas) f.closestFeasible(x);
+		pv(o, f.eval(x)); o << " : " << (feas ? 1 : 0);
+	}
+	o << "\n";
+}
 
 // configure = false: a fresh object as a restoring program would create it (generator only)
 static std::unique_ptr<Opt> create(std::string const& alg, random::rng_type& rng, bool configure, std::size_t mu, int useRef,
                                    RealVector const& ref, std::size_t steps, std::size_t nobj, Handles& h, std::size_t& expect) {
 	std::unique_ptr<Opt> opt; expect = mu;
-	if (alg == "MOCMA") { h.mocma = new MOCMA(rng); if (configure) { h.mocma->mu() = mu; if (useRef) h.mocma->indicator().setReference(ref); } opt.reset(h.mocma); }
-	else if (alg == "SSMOCMA") { h.ss = new SteadyStateMOCMA(rng); if (configure) { h.ss->mu() = mu; if (useRef) h.ss->indicator().setReference(ref); } opt.reset(h.ss); }
-	else if (alg == "SMSEMOA") { h.sms = new SMSEMOA(rng); if (configure) { h.sms->mu() = mu; if (useRef) h.sms->indicator().setReference(ref); } opt.reset(h.sms); }
-	else if (alg == "NSGA2") { RealCodedNSGAII* a = new RealCodedNSGAII(rng); if (configure) { a->mu() = mu; if (useRef) a->indicator().setReference(ref); } opt.reset(a); }
-	else if (alg == "NSGA2C") { CrowdingRealCodedNSGAII* a = new CrowdingRealCodedNSGAII(rng); if (configure) a->mu() = mu; opt.reset(a); }
-	else if (alg == "NSGA2E") { EpsRealCodedNSGAII* a = new EpsRealCodedNSGAII(rng); if (configure) a->mu() = mu; opt.reset(a); }
-	else if (alg == "NSGA3") { RealCodedNSGAIII* a = new RealCodedNSGAIII(rng); if (configure) a->mu() = mu; opt.reset(a); }
-	else if (alg == "MOEAD") { h.moead = new MOEAD(rng); if (configure) { h.moead->mu() = mu; h.moead->neighbourhoodSize() = std::min<std::size_t>(10, mu); } opt.reset(h.moead); }
+	if (alg == "MOCMA") { h.mocma = new MOCMA(rng); if (configure) { h.mocma->mu() = mu; if (useRef) h.mocma->indicator().setReference(ref); } opt.reset(h.mocma); hook(h, h.mocma); }
+	else if (alg == "SSMOCMA") { h.ss = new SteadyStateMOCMA(rng); if (configure) { h.ss->mu() = mu; if (useRef) h.ss->indicator().setReference(ref); } opt.reset(h.ss); hook(h, h.ss); }
+	else if (alg == "SMSEMOA") { h.sms = new SMSEMOA(rng); if (configure) { h.sms->mu() = mu; if (useRef) h.sms->indicator().setReference(ref); } opt.reset(h.sms); hook(h, h.sms); }
+	else if (alg == "NSGA2") { RealCodedNSGAII* a = new RealCodedNSGAII(rng); if (configure) { a->mu() = mu; if (useRef) a->indicator().setReference(ref); } opt.reset(a); hook(h, a); }
+	else if (alg == "NSGA2C") { CrowdingRealCodedNSGAII* a = new CrowdingRealCodedNSGAII(rng); if (configure) a->mu() = mu; opt.reset(a); hook(h, a); }
+	else if (alg == "NSGA2E") { EpsRealCodedNSGAII* a = new EpsRealCodedNSGAII(rng); if (configure) a->mu() = mu; opt.reset(a); hook(h, a); }
+	else if (alg == "NSGA3") { RealCodedNSGAIII* a = new RealCodedNSGAIII(rng); if (configure) a->mu() = mu; opt.reset(a); hook(h, a); }
+	else if (alg == "MOEAD") { h.moead = new MOEAD(rng); if (configure) { h.moead->mu() = mu; h.moead->neighbourhoodSize() = std::min<std::size_t>(10, mu); } opt.reset(h.moead); hook(h, h.moead); }
 	else if (alg == "RVEA") { h.rvea = new RVEA(rng); if (configure) { h.rvea->approxMu() = mu; h.rvea->maxIterations() = steps + 1; }
-		expect = RVEA::suggestMu(nobj, mu); opt.reset(h.rvea); }
+		expect = RVEA::suggestMu(nobj, mu); opt.reset(h.rvea); hook(h, h.rvea); }
 	return opt;
 }
 
@@ -132,7 +166,13 @@ int main(int argc, char** argv) {
 		// O lines, optional: the SAME optimizer object first completes an earlier run of `pre` steps (other seed) and is initialised again;
 		// everything printed must equal the run of a fresh object.  K lines: the number of steps before the checkpoint.
 		std::size_t pre = 0; is >> pre; if (!is) pre = 0;
-		bool restore = cmd == "K";
+		bool restore = cmd == "K", initStage = cmd == "N";
+		std::vector<RealVector> start;               // N lines: the caller's starting points
+		if (initStage) {
+			start.assign(pre, RealVector(nvar)); pre = 0;
+			for (std::size_t i = 0; i < start.size(); ++i) for (std::size_t j = 0; j < nvar; ++j) is >> start[i](j);
+			if (!is) { std::cout << "CASE " << line << "\nEXC malformed case line\n"; continue; }
+		}
 		std::unique_ptr<Fn> f;
 		using namespace shark::benchmarks;
 		if (fn == "ZDT1") f = mk<ZDT1>(nvar, nobj); else if (fn == "ZDT2") f = mk<ZDT2>(nvar, nobj);
@@ -155,7 +195,18 @@ int main(int argc, char** argv) {
 			o << " mu=" << expect << " lo="; pv(o, bh.lower()); o << " hi="; pv(o, bh.upper()); o << "\n";
 			if (!restore && pre > 0) { rng.seed(seed + 7919); f->init(); opt->init(*f); for (std::size_t t = 0; t != pre; ++t) opt->step(*f); }
 			rng.seed(seed); f->init();
-			opt->init(*f);
+			if (initStage) {
+				bool plain = start.empty();
+				if (plain) {                            // what init(function) will ask the function for
+					start.resize(opt->numInitPoints());
+					for (std::size_t i = 0; i < start.size(); ++i) start[i] = f->proposeStartingPoint();
+					rng.seed(seed); f->init();
+				}
+				dumpPoints(o, start, *f);
+				if (plain) opt->init(*f); else opt->init(*f, start);
+				h.parents(o);
+			}
+			else opt->init(*f);
 			std::size_t first = restore ? pre : steps;
 			for (std::size_t t = 0; t <= first; ++t) {
 				if (t > 0) opt->step(*f);
